@@ -231,4 +231,17 @@ def cnt_axioms_V():
             z3.ForAll([a, b, p], z3.Implies(p >= 0, z3.And(cntV(a, b, p) >= 0, cntV(a, b, p) <= p)),
                       patterns=[cntV(a, b, p)]),
             z3.ForAll([a, b], z3.Implies(dupfree(_LV, b), isectV(a, b) == cntV(a, b, L_len(_LV, b))),
-                      patterns=[isectV(a, b)])]
+                      patterns=[isectV(a, b)]),
+            # lemma (induction on p, assumed): nothing occurs in an empty list
+            z3.ForAll([a, b, p], z3.Implies(L_len(_LV, a) == 0, cntV(a, b, p) == 0), patterns=[cntV(a, b, p)])]
+
+
+def toks_axioms():
+    """facts about tokenize for every string and mode (ASSUMED tokenizer contract, quantified)"""
+    rs = z3.Bool('rs!tk')
+    s_ = z3.Const('s!tk', ValSort)
+    t = toks(rs, s_)
+    return [z3.ForAll([rs, s_], z3.And(L_len(_LV, t) >= 0, nsetV(t) >= 0, nsetV(t) <= L_len(_LV, t),
+                                        (nsetV(t) == 0) == (L_len(_LV, t) == 0),
+                                        z3.Implies(rs, nsetV(t) == L_len(_LV, t))), patterns=[t]),
+            z3.ForAll([s_], dupfree(_LV, toks(z3.BoolVal(True), s_)), patterns=[toks(z3.BoolVal(True), s_)])]
